@@ -45,7 +45,10 @@ MANIFEST = {
             'nesting with a raising / returning core; the nestings as body '
             'of a template that invokes itself again from the innermost '
             'level (its defaults on top again); all pairs of sibling blocks '
-            'with an outer value whose result changes on every call.',
+            'with an outer value whose result changes on every call; the '
+            'source subsets once more with names spelled like builtins of '
+            'the expression language (max, str, len) and with an '
+            'underscore name.',
     'note': 'Trusted: dtmc/refsem.py (model namespace: a list of frames '
             'searched last-first; callables called on name lookup only; '
             'sub-templates rendered on the current stack with their '
